@@ -220,10 +220,10 @@ class C06(ProgCheck):
         # random structured programs with loop emphasis
         for k in range(400 if quick else 6000):
             g = progen.Gen(self.rng, nvars=2, funcs=(k % 3 == 0), errors=0.06, tables=(0.3 if k % 2 else 0.0),
-                           errrec=(0.05 if k % 4 == 1 else 0.0), extras=(0.15 if k % 4 == 2 else 0.0))
+                           errrec=(0.05 if k % 4 == 1 else 0.0), extras=(0.15 if k % 4 == 2 else 0.0), mathx=(0.2 if k % 4 == 3 else 0.0))
             add(g.program(nstmts=self.rng.randint(3, 7), depth=3), {"family": "random"})
             for kk, vv in g.stats.items():
-                if kk.startswith(("error-", "handler-reports", "function-clause", "function-reads", "isnull")):
+                if kk.startswith(("error-", "handler-reports", "function-clause", "function-reads", "isnull", "mathx-")):
                     self.stats.setdefault("int_random", {})[kk] = self.stats.get("int_random", {}).get(kk, 0) + vv
         cases += self.lock_cases(quick)
         self.stats["cases"] = len(cases)
